@@ -177,7 +177,12 @@ impl Session {
         let mark = self.mark();
         let r = {
             let w = self.w.as_mut().unwrap();
-            std::panic::catch_unwind(std::panic::AssertUnwindSafe(|| w.write_all(bs)))
+            // one of the fixed literals goes in through `write!(w, "literal")` — `write_fmt` with
+            // no arguments, which std implements with `write_all` (and a writer might not)
+            std::panic::catch_unwind(std::panic::AssertUnwindSafe(|| match write_literal(w, bs) {
+                Some(r) => r,
+                None => w.write_all(bs),
+            }))
         };
         let obs = match r {
             Err(_) => {
@@ -476,6 +481,23 @@ fn is_poll(st: &Step) -> bool {
     st.tok.starts_with('P')
 }
 
+/// Payloads that `write_all_real` sends as `write!(w, "<literal>")`.
+pub const FMT_LITERALS: [&[u8]; 8] = [b"a", b"bc", b"def", b"ghij", b"klmno", b"pqrstu", b"vwxyzAB", b"CDEFGHIJ"];
+
+fn write_literal<W: std::io::Write>(w: &mut W, bs: &[u8]) -> Option<std::io::Result<()>> {
+    Some(match bs {
+        b"a" => write!(w, "a"),
+        b"bc" => write!(w, "bc"),
+        b"def" => write!(w, "def"),
+        b"ghij" => write!(w, "ghij"),
+        b"klmno" => write!(w, "klmno"),
+        b"pqrstu" => write!(w, "pqrstu"),
+        b"vwxyzAB" => write!(w, "vwxyzAB"),
+        b"CDEFGHIJ" => write!(w, "CDEFGHIJ"),
+        _ => return None,
+    })
+}
+
 pub fn pred_c08(s: &Session) -> String {
     if s.panicked {
         return "FAIL:panic".into();
@@ -770,7 +792,10 @@ pub fn random_history(rng: &mut Rng, cap: usize, len: usize, with_abort: bool, w
                 Op::WriteV((0..k).map(|_| { let sz = (*rng.pick(&sizes)).min(300_000); payload(rng, sz, kind) }).collect())
             }
             5 => Op::WriteAll(payload(rng, sz, kind)),
-            6 => Op::WriteAllReal(payload(rng, sz, kind)),
+            6 if rng.chance(1, 2) => Op::WriteAllReal(payload(rng, sz, kind)),
+            // one of the literals `write!` is used with (lengths 1 … 8: with the small chunk sizes
+            // they fall short of, exactly fill and overflow the current chunk)
+            6 => Op::WriteAllReal(rng.pick(&FMT_LITERALS).to_vec()),
             7 | 8 => Op::Flush,
             9 | 10 => Op::PollUntilPending(1 + rng.below(2)),
             11 => Op::Poll(1 + rng.below(3)),
@@ -867,6 +892,18 @@ pub fn c08(em: &mut Emit, thorough: bool, seed: u64) {
                 if k == len {
                     break;
                 }
+            }
+        }
+    }
+    // `write!(w, "literal")` landing short of, exactly on and beyond the end of the current chunk,
+    // followed by ordinary writes
+    for cap in [2usize, 3, 4, 5, 8, 9] {
+        for first in 0..cap.min(4) {
+            for lit in FMT_LITERALS {
+                let mut ops = vec![Op::Write(vec![b'#'; first]), Op::WriteAllReal(lit.to_vec()), Op::Write(b"xy".to_vec()), Op::WriteAll(b"0123456789".to_vec()), Op::PollUntilPending(1)];
+                finish(&mut ops, 2);
+                let s = run_ops(cap, 0, &ops);
+                emit(em, &s, pred_c08(&s), class_of(&s, "fmt"));
             }
         }
     }
